@@ -19,6 +19,15 @@ CHECKS = {
  "C09": ("metamorphic monitor: fmt(fmt(x)) == fmt(x), output hygiene from the output's own token spans, and real `incan fmt` / `--check` / `--diff` runs on scratch directories (bytes + mtime snapshots)",
          "Same inputs as C08 (restricted to those whose formatted text parses): idempotence, exactly one final newline, no tab/trailing blank outside string tokens; CLI scenarios in file and directory mode. Exploration.",
          "String extents are taken from the lexer under test run on the formatter's output; CLI scenarios assume a POSIX filesystem with ns mtimes.", "5/C09"),
+ "C10": ("metamorphic monitor: span-erased AST equality under token-position-aware layout edits (comments, blank lines, trailing blanks, final newline, CRLF, bracket line breaks, re-indentation)",
+         "Each valid file (generated + corpus) is edited at all/sampled eligible positions computed from its own token stream; every edited text is parsed by the real lexer/parser and must give the same tree. Exploration over (edit kind x lexer state) classes.",
+         "Edits never touch the inside of string-like tokens; CRLF/re-indent skip files with multi-line strings.", "5/C10"),
+ "C11": ("invariant monitor: every stage of the real front end run under catch_unwind on hostile inputs with diagnostic well-formedness assertions and all three renderers; crash/stall attribution per input; CLI exit-status monitor",
+         "Tens of thousands (thorough: >1M) of random, token-soup, mutated-valid and deeply nested inputs pushed through lex/parse/check/format/emit in-process, plus the real CLI on a sample. Exploration; the depth bound (150) is part of the claim.",
+         "catch_unwind catches panics only; aborts/stack overflows are seen as a dead harness process and attributed to the input in flight.", "5/C11"),
+ "C19": ("reference-model monitor, exhaustive for a bounded space: all documents over a 6-symbol multi-byte alphabet up to length 6/7 x all offsets and span pairs, against an independent prefix counter; second oracle in Python on random long documents; terminal line:col vs the same count",
+         "Exhaustive enumeration (exhaustive: true for the stated bound) plus random long documents; every conversion is executed by the real functions.", 
+         "Characters are Unicode scalars; LF is the only line terminator.", "5/C19"),
 }
 WIP = "check not built yet in this round (work in progress; see DESIGN.md section 5 for the planned monitor)"
 ALL = ["C%02d" % i for i in range(1, 21)]
